@@ -34,10 +34,10 @@ func init() {
 
 type recTM struct{ n int64 }
 
-func (t *recTM) Start()                   {}
-func (t *recTM) Stop()                    {}
+func (t *recTM) Start()                     {}
+func (t *recTM) Stop()                      {}
 func (t *recTM) Add(task gossip.Task) error { atomic.AddInt64(&t.n, 1); return task() }
-func (t *recTM) Len() int                 { return 0 }
+func (t *recTM) Len() int                   { return 0 }
 
 type recFactory struct {
 	agent string
